@@ -37,6 +37,16 @@ fn warmup() {
     let _ = ommx::artifact::media_types::v1_instance();
     let _: Result<serde_json::Value, _> = serde_json::from_str("{\"a\":[1,2.5,null]}");
     let _ = chrono::DateTime::parse_from_rfc3339("2024-01-01T00:00:00+09:00");
+    // the regex crate keeps a process-global pool of match caches in 8 stacks selected by thread id; a thread
+    // that finds its stack empty creates a cache (and with it hash maps, which would shift the hash keys of the
+    // run that happened to be first). Fill every stack once, from consecutive threads, before any simulation.
+    for _ in 0..24 {
+        let _ = std::thread::spawn(|| {
+            let _ = ommx::ocipkg::Digest::new("sha256:00");
+            let _ = ommx::ocipkg::ImageName::parse("ghcr.io/jij-inc/ommx/warmup:tag");
+        })
+        .join();
+    }
 }
 
 fn main() {
@@ -50,6 +60,9 @@ fn main() {
     if args.is_empty() {
         usage();
     }
+    if args[0] == "--selftest" {
+        std::process::exit(selftest(&args[1..]));
+    }
     let id = args[0].clone();
     let mut tier = match std::env::var("VERIF_TIER").as_deref() {
         Ok("thorough") => Tier::Thorough,
@@ -62,6 +75,8 @@ fn main() {
     let mut quiet = false;
     let mut hashes_out = None;
     let mut no_evidence = false;
+    let mut dump_run = None;
+    let mut child = None;
     let mut i = 1;
     while i < args.len() {
         match args[i].as_str() {
@@ -91,6 +106,16 @@ fn main() {
                 hashes_out = args.get(i).cloned();
             }
             "--no-evidence" => no_evidence = true,
+            "--child" => {
+                let k = args.get(i + 1).and_then(|s| s.parse().ok()).unwrap_or(0);
+                let n = args.get(i + 2).and_then(|s| s.parse().ok()).unwrap_or(1);
+                child = Some((k, n, args.get(i + 3).cloned().unwrap_or_default()));
+                i += 3;
+            }
+            "--dump-run" => {
+                i += 1;
+                dump_run = args.get(i).and_then(|s| s.parse().ok());
+            }
             _ => usage(),
         }
         i += 1;
@@ -98,8 +123,68 @@ fn main() {
     let code = if let Some(path) = replay {
         dispatch!(id.as_str(), replay, &path, quiet)
     } else {
-        let opt = Options { tier, seed, runs, workers, hashes_out, no_evidence };
+        let opt = Options { tier, seed, runs, workers, hashes_out, no_evidence, dump_run, child };
         dispatch!(id.as_str(), run_check, &opt)
     };
     std::process::exit(code);
+}
+
+const CLAIMED: [&str; 9] = ["C03", "C04", "C07", "C08", "C14", "C17", "C18", "C19", "C20"];
+
+/// `--selftest determinism [Cxx ...]`: every run is executed in separate processes, at worker counts 1 and 16 and
+/// under two time zones, and the per-run event-log hashes are compared.
+fn selftest(args: &[String]) -> i32 {
+    if args.first().map(|s| s.as_str()) != Some("determinism") {
+        usage();
+    }
+    let props: Vec<String> = if args.len() > 1 { args[1..].to_vec() } else { CLAIMED.iter().map(|s| s.to_string()).collect() };
+    let exe = std::env::current_exe().expect("current_exe");
+    let dir = runner::scratch_root();
+    let _ = std::fs::create_dir_all(&dir);
+    let mut bad = 0;
+    for p in &props {
+        let run = |tag: &str, extra: &[&str], tz: &str| -> Option<String> {
+            let out = format!("{}/{}-{}.hashes", dir, p, tag);
+            let st = std::process::Command::new(&exe).arg(p).args(extra).arg("--hashes-out").arg(&out).arg("--no-evidence").env("TZ", tz).env("VERIF_SEED", "1").output().ok()?;
+            if st.status.code() != Some(0) {
+                eprintln!("selftest: {} {} exited with {:?}", p, tag, st.status.code());
+                return None;
+            }
+            std::fs::read_to_string(&out).ok()
+        };
+        // the time zone is configuration for C20 (stored timestamps carry the local offset, hence digests differ);
+        // everything else must not depend on it
+        let (tz1, tz2) = if p == "C20" { ("Asia/Tokyo", "Asia/Tokyo") } else { ("UTC", "Asia/Tokyo") };
+        // (a) sampled runs: 1 worker vs 16 workers
+        let a = run("w1", &["--runs", "2000", "--workers", "1"], tz1);
+        let b = run("w16", &["--runs", "2000", "--workers", "16"], tz2);
+        // (b) the whole quick tier (enumerated + sampled) twice
+        let (tz3, tz4) = if p == "C20" { ("America/St_Johns", "America/St_Johns") } else { ("America/St_Johns", "UTC") };
+        let c = run("q1", &["--tier", "quick"], tz3);
+        let d = run("q2", &["--tier", "quick", "--workers", "7"], tz4);
+        let cmp = |x: &Option<String>, y: &Option<String>, what: &str| -> u64 {
+            match (x, y) {
+                (Some(x), Some(y)) => {
+                    let n = x.lines().count();
+                    let diff = x.lines().zip(y.lines()).filter(|(a, b)| a != b).count() + (x.lines().count() as i64 - y.lines().count() as i64).unsigned_abs() as usize;
+                    println!("selftest determinism: {} {}: {} runs compared, {} mismatches", p, what, n, diff);
+                    diff as u64
+                }
+                _ => {
+                    println!("selftest determinism: {} {}: a run failed", p, what);
+                    1
+                }
+            }
+        };
+        bad += cmp(&a, &b, &format!("2000 sampled runs, 1 worker/TZ={tz1} vs 16 workers/TZ={tz2}"));
+        bad += cmp(&c, &d, &format!("quick tier, 16 workers/TZ={tz3} vs 7 workers/TZ={tz4}"));
+    }
+    let _ = std::fs::remove_dir_all(&dir);
+    if bad == 0 {
+        println!("selftest determinism: ok");
+        0
+    } else {
+        println!("selftest determinism: FAILED");
+        2
+    }
 }
